@@ -111,6 +111,24 @@ class C03(Prop):
         """a second demodulator instance in the same process keeps receiving end-of-transmission bursts while the first is in steady reception
         of a long clean transmission (the function-local statics are shared): the first one's delivery must be unaffected"""
         rng = ctx.rng
+        # corpus first: the witness of the defect repaired in d37d962 (statics shared by all instances), found by this stage in the thorough tier
+        import gzip, os
+        wit = os.path.join(core.VERIF, "corpus", "C03-second-instance.ops.gz")
+        if os.path.exists(wit):
+            wl = gzip.open(wit, "rt").read().strip().split("\n")[0]
+            wsent = [list(map(int, l.split())) for l in gzip.open(wit.replace(".ops.gz", ".sent.gz"), "rt").read().strip().split("\n")]
+            wout, wrc, werr = ctx.run_lines(demod, [wl], timeout=900)
+            ctx.count(("dual", "corpus"), nontrivial=True)
+            ctx.stat("rx:dual-instance-runs")
+            if wrc != 0:
+                ctx.violate(f"rx2:abort:{core.first_frame(werr)}", f"demodulator aborted with a second instance in the process (corpus witness): {core.first_err_line(werr)}",
+                            {"stream": "rx", "ops_file": wit, "stderr": werr[-2000:]})
+            else:
+                _, wfr = demodlib.parse_frames(wout[0])
+                wres = demodlib.judge_delivery(wsent, wfr)
+                if wres["steady_frame"] is not None and wres["problems"]:
+                    ctx.violate("rx2:second-instance", f"corpus witness (41-frame transmission at gain 2.926, 200 ppm, next to a second instance receiving EOT bursts): steady reception from frame "
+                                f"{wres['steady_frame']}, then: {wres['problems'][0]}", {"stream": "rx", "ops_file": wit, "sent_payloads_file": wit.replace(".ops.gz", ".sent.gz"), "problems": wres["problems"][:5]})
         nfr = 200
         audio = [rng.randrange(-8000, 8000) for _ in range(320 * nfr)]
         tx, _, _ = demodlib.transmission(ctx, mod, "W1AW", "N0CALL", 5, audio)
